@@ -637,8 +637,8 @@ fn main() {
     let mut psg = Processor::<SG>::with_capacity(4);
     let mut item = 0u64;
     match stage.as_str() {
-        "main" | "asan" => {
-            let full = stage == "main";
+        "main" | "release" | "asan" => {
+            let full = stage != "asan";
             for n in 1..=3usize {
                 enum_multigraphs(n, 2, |code| full || code % 7 == 0, |code, d| {
                     run_desc::<G>(d, None, &mut pg, 1, &mut rep, false);
@@ -688,6 +688,29 @@ fn main() {
             }
             if full && step == 1 {
                 rep.exhaustive("every simple digraph with loops on 4 nodes (2^16) x every output x {Graph, StableGraph}");
+            }
+            // wide fan-in: one node fed by W different nodes (W beyond any capacity the processor
+            // was created with and beyond the u8 / u16 / 1024 / 4096 thresholds), plus a parallel
+            // edge, a self-loop on the sink and a second level; small shared processor and a fresh
+            // full-size one (run_desc uses both)
+            if full {
+                rep.oblige("wide_fan_in_above_256", 1);
+                let widths: Vec<usize> = if cli.thorough() { vec![255, 256, 257, 300, 1023, 1025, 4097, 70_000] } else { vec![257, 300, 1025, 4097] };
+                for w in widths {
+                    let mut edges: Vec<(usize, usize)> = (0..w).map(|i| (i, w)).collect();
+                    edges.push((0, w)); // parallel edge
+                    edges.push((w, w)); // self-loop on the sink
+                    edges.push((w + 1, 0));
+                    edges.push((w + 1, 1));
+                    let d = Desc { n: w + 2, bufs: vec![1; w + 2], edges, ..Default::default() };
+                    run_desc::<G>(&d, Some(&[w]), &mut pg, 2, &mut rep, false);
+                    run_desc::<SG>(&d, Some(&[w]), &mut psg, 2, &mut rep, false);
+                    rep.nontrivial(vmon::hash_combine(0x77696465, w as u64));
+                    if w > 256 {
+                        rep.hit("wide_fan_in_above_256");
+                    }
+                }
+                flush(&mut rep);
             }
             // random larger graphs, processed 3 times each
             let n_rand = if full { cli.t(1_500u64, 600_000u64) } else { cli.t(1_000, 20_000) };
